@@ -46,7 +46,7 @@ def space(tier, seed):
                     q['assign'] = sh['assign']
                 qs.append(q)
     # hostile key values: names of Object.prototype members and digits that equal a record number as text
-    hw = ['constructor', '__proto__', 'toString', '1']
+    hw = ['constructor', '__proto__', 'toString', '1', '']
     hq = []
     for jt in KINDS:
         for kl in ([(F('a', 1), F('b', 1))], [(('aNR',), F('b', 1))], [(F('a', 1), F('b', 1)), (F('a', 2), F('b', 2))]):
@@ -58,7 +58,7 @@ def space(tier, seed):
                     q['assign'] = sh['assign']
                 hq.append(q)
     hrowsA = [[w, 'x'] for w in hw]
-    hrowsB = [[w, 'x'] for w in hw[:2]] + [['1', 'x'], ['valueOf', 'y']]
+    hrowsB = [[w, 'x'] for w in hw[:2]] + [['1', 'x'], ['valueOf', 'y'], ['', 'e']]
     return dict(qs=qs, rowsA=rowsA, rowsB=rowsB, k=k, hq=hq, hrowsA=hrowsA, hrowsB=hrowsB)
 
 
